@@ -527,6 +527,20 @@ class Machine:
             if isinstance(x, tuple) and x and x[0] == "ptr" and mm:
                 return ("ptr", x[1], x[2] + a[1] * (int(mm.group(1)) // 8))
             raise Unsupported("get_unchecked on %r" % (str(x)[:40],))
+        if nm in ("core::ptr::write_bytes", "core::intrinsics::write_bytes") and isinstance(a[2], int) and isinstance(a[0], tuple) and a[0] and a[0][0] == "eptr":
+            cont, off, w_ = a[0][1], a[0][2], a[0][3]
+            if (off * 8) % w_:
+                raise Unsupported("unaligned write_bytes")
+            if not isinstance(a[1], int):
+                raise Unsupported("write_bytes of a symbolic byte")
+            fill = 0
+            for _ in range(w_ // 8):
+                fill = (fill << 8) | (a[1] & 0xff)
+            for k in range(a[2]):
+                if (off * 8 // w_ + k) not in cont:
+                    raise Unsupported("write_bytes beyond the buffer")
+                cont[off * 8 // w_ + k] = B.const(fill, w_)
+            return None
         if nm in ("core::ptr::read", "core::ptr::read_unaligned") or re.search(r"_ptr::<impl \*const T>::read(_unaligned)?$", nm):
             sz = {"i32": 4, "u32": 4, "u8": 1, "u64": 8, "i64": 8, "u16": 2, "core::arch::x86_64::__m128i": 16, "core::arch::x86_64::__m256i": 32}.get((c.ga or [""])[0])
             if sz is None:
